@@ -62,6 +62,7 @@ def run(model: Model, rep: Report, tier: str) -> None:
          "one judgement per (left, right): input sorted and grouped by the SAME pair key, each group reduced to its policy-minimum; default policy = fewest conditions first"),
     ]
     run_table(model, rep, table, "yvref.c15", mk, sa, construct=construct, loc=loc)
+    _powerset_small_scope(model, rep)
     # the topological policy orders by the number of conditions first, too
     pfn = model.func(f"{CI}._topological_policy") if model.has_func(f"{CI}._topological_policy") else None
     if pfn is not None:
@@ -78,3 +79,59 @@ def run(model: Model, rep: Report, tier: str) -> None:
                           "implied independencies computed after the graph was extended can be those of the old graph")
     # verdicts: C04's pipeline
     c04.analyse_are_d_separated(model, rep)
+
+
+def _powerset_small_scope(model: Model, rep: Report) -> None:
+    """R15.2 on literal inputs: the routine is evaluated (constant folding over a literal pool of 0..3 elements and literal bounds) and its value, a
+    literal list, is compared with the subsets of size start..stop-1 in order -- this sees what the symbolic comparison leaves open, e.g. an early
+    return for an empty pool that forgets the empty set itself."""
+    import itertools
+
+    from ..terms import NONE, const
+
+    if not model.has_func(PS):
+        return
+    f = model.func(PS)
+    cons = construct(f, "size-schedule:small-scope")
+    problems, undecided, n_cfg = [], 0, 0
+    for n in range(0, 4):
+        pool = [chr(ord("a") + i) for i in range(n)]
+        for start in range(0, 3):
+            for stop in (None, 0, 1, 2, 3, 4):
+                for reverse in (False, True):
+                    n_cfg += 1
+                    ev = Evaluator(model)
+                    args = {"iterable": ("tuplelit", tuple(const(x) for x in pool)), "start": const(start), "stop": NONE if stop is None else const(stop),
+                            "reverse": const(reverse), "use_tqdm": const(False), "tqdm_kwargs": NONE}
+                    args = {k: v for k, v in args.items() if k in f.params}
+                    try:
+                        ps = ev.run(f, args)
+                    except Exception:  # noqa: BLE001
+                        undecided += 1
+                        continue
+                    hi = n + 1 if stop is None else stop
+                    sizes = [(n - r) if reverse else r for r in range(start, hi)]
+                    if any(k < 0 for k in sizes):
+                        continue  # combinations() refuses a negative size: outside the documented use
+                    want = [tuple(c) for k in sizes for c in itertools.combinations(pool, k)]
+                    if len(ps) != 1 or ps[0].kind != "return" or ps[0].conds:
+                        undecided += 1
+                        continue
+                    v = ps[0].value
+                    while v[0] == "call" and v[1] in ("list", "tuple", "iter") and len(v[2]) == 1:
+                        v = v[2][0]
+                    if v[0] not in ("listlit", "tuplelit") or not all(x[0] in ("tuplelit", "listlit") and all(y[0] == "const" for y in x[1]) for x in v[1]):
+                        undecided += 1
+                        continue
+                    got = [tuple(y[1] for y in x[1]) for x in v[1]]
+                    if got != want:
+                        problems.append(f"powerset({pool}, start={start}, stop={stop}, reverse={reverse}) yields {got[:4]}{'…' if len(got) > 4 else ''} "
+                                        f"({len(got)} subsets), the definition gives {want[:4]}{'…' if len(want) > 4 else ''} ({len(want)})")
+    if problems:
+        rep.refuted("R15.2", cons, "; ".join(problems[:2]) + (" -- for a pair of nodes with nothing else in the graph the empty conditioning set is never tried, so "
+                    "a marginal independence is not reported" if any("[]" in p_.split("yields")[0] for p_ in problems[:2]) else ""), loc(f),
+                    sample={"configurations": n_cfg, "violating": len(problems)})
+    elif undecided:
+        rep.unknown("R15.2", cons, f"{undecided} of {n_cfg} literal configurations do not fold to a literal list (idiom outside the folding rules)", loc(f), required=False)
+    else:
+        rep.proven("R15.2", cons, loc=loc(f), sample={"configurations": n_cfg})
